@@ -35,6 +35,7 @@ ASSUMPTIONS = ['step ratio real > 1 or complex with modulus > 1 (q = 1/r with 0 
                'sequence entries finite reals / complex numbers (no NaN)']
 NOT_DECIDED = ['"up to conditioning-scaled rounding"']
 BOUNDED = []
+EXECUTED = ['integer-config: integer-typed step_ratio/step/order compared with the float configuration on %d concrete configurations (exact equality)']
 QUANTIFIED = 'L, a_j, h, q (real) or (qre, qim) (complex), all table entries in the error-estimate obligations: ' \
              'universally quantified; step, order, num_terms, sequence length enumerated over the property\'s ranges'
 
@@ -62,6 +63,8 @@ def groups(tier):
         for mm in [(1, 1), (1, 2), (1, 3), (1, 4), (2, 3), (3, 4), (3, 5), (2, 2), (4, 6)]:
             out.append(('errest[%s-steps,m=%d,m_old=%d]' % (sk, mm[0], mm[1]), ('errest', sk, mm)))
     out.append(('columns', ('columns',)))
+    out.append(('reconfigure', ('reconf',)))
+    out.append(('integer-config', ('intcfg',)))
     return out
 
 
@@ -326,7 +329,78 @@ def run_columns():
     return {}
 
 
+def run_reconf():
+    """step_ratio, step, order and num_terms are public attributes: after they are changed on ONE object the next rule /
+    call uses the matrix of the new configuration (no state of the old one survives)"""
+    ex = mods()['ex']
+    with installed(ex):
+        CTX.reset()
+        qa, qb = real('qa'), real('qb')
+        pre = [qa.t > 0, qa.t < 1, qb.t > 0, qb.t < 1]
+        cfgs = [(Recip(qa), qa, 1, 1, 2), (Recip(qb), qb, 1, 1, 2), (Recip(qb), qb, 2, 2, 2), (Recip(qa), qa, 2, 2, 3),
+                (Recip(qa), qa, 1, 3, 3), (Recip(qb), qb, 1, 3, 1), (Recip(qa), qa, 1, 1, 2)]
+        Rch = ex.Richardson(step_ratio=cfgs[0][0], step=cfgs[0][2], order=cfgs[0][3], num_terms=cfgs[0][4])
+        for ci, (r, q, step, order, nt) in enumerate(cfgs):
+            Rch.step_ratio, Rch.step, Rch.order, Rch.num_terms = r, step, order, nt
+            for K in (nt + 1, nt + 3, 2):
+                T = min(nt, K - 1)
+                tag = 'config%d(step=%d,order=%d,terms=%d),len=%d:' % (ci, step, order, nt, K)
+                for use in ('rule', 'call'):
+                    del PINV_LOG[:]
+                    if use == 'rule':
+                        w = Rch.rule(K)
+                    else:
+                        tab = SymArr([[real('s%d' % k)] for k in range(K)])
+                        steps = SymArr([[real('h%d' % k)] for k in range(K)])
+                        new, err, st = Rch(tab, steps)
+                    solve.fact(tag + use + ':matrix-rebuilt-and-inverted', len(PINV_LOG) >= 1, note=str(len(PINV_LOG)))
+                    if not PINV_LOG:
+                        continue
+                    M, P = PINV_LOG[-1]
+                    solve.fact(tag + use + ':matrix-shape', M.shape == (T + 1, T + 1), note=str(M.shape))
+                    if M.shape != (T + 1, T + 1):
+                        continue
+                    for i in range(T + 1):
+                        equal(tag + use + ':M[%d,0]==1' % i, M[i, 0], R(1), pre)
+                        for j in range(T):
+                            equal(tag + use + ':M[%d,%d]==q^(i*(order+step*j))' % (i, j + 1), M[i, j + 1], q ** (i * (step * j + order)), pre)
+                    if use == 'rule':
+                        solve.fact(tag + 'rule-is-row-0-of-this-inverse', len(w) == T + 1 and
+                                   all(all(x.eq(y) for x, y in zip(parts(w[i]), parts(P[0, i]))) for i in range(T + 1)))
+                    else:
+                        for k in range(K - T):
+                            want = sum((P[0, i] * tab[k + i, 0] for i in range(T + 1)), R(0))
+                            polyzero(tag + 'new[%d]==sum_i w_i*seq[%d+i]' % (k, k), new[k, 0] - want, pre)
+    return {}
+
+
+INT_CFGS = [(2, 1, 1, 2), (3, 2, 2, 3), (4, 1, 2, 1), (2, 2, 1, 4), (np.int64(2), np.int64(1), np.int64(1), 2), (np.int32(3), 1, 1, 2)]
+
+
+def run_intcfg():
+    """integer-typed step_ratio / step / order: the matrix (and hence the rule) is the one of the same numbers given as
+    floats.  Executed on concrete data with the real numpy (dtype truncation is invisible in object arrays)."""
+    ex = mods()['ex']
+    bad = []
+    for (ratio, step, order, nt) in INT_CFGS:
+        a = ex.Richardson._r_matrix(ratio, step, nt, order)
+        b = ex.Richardson._r_matrix(float(ratio), float(step), nt, float(order))
+        want = np.array([[1.0] + [(1.0 / float(ratio)) ** (i * (float(step) * j + float(order))) for j in range(nt)] for i in range(nt + 1)])
+        if a.shape != b.shape or not np.array_equal(np.asarray(a, dtype=float), b) or not np.allclose(b, want, rtol=1e-13, atol=0):
+            bad.append(('r_matrix', str((ratio, step, order, nt)), np.asarray(a).tolist()))
+        wa = ex.Richardson(step_ratio=ratio, step=step, order=order, num_terms=nt).rule()
+        wb = ex.Richardson(step_ratio=float(ratio), step=float(step), order=float(order), num_terms=nt).rule()
+        if not np.array_equal(np.asarray(wa, dtype=float), np.asarray(wb, dtype=float)):
+            bad.append(('rule', str((ratio, step, order, nt)), np.asarray(wa).tolist(), np.asarray(wb).tolist()))
+    solve.fact('integer-typed-configuration-gives-the-float-matrix-and-rule[%d configs]' % len(INT_CFGS), not bad, note=str(bad[:2])[:300])
+    return {}
+
+
 def run_group(args):
+    if args[0] == 'reconf':
+        return run_reconf()
+    if args[0] == 'intcfg':
+        return run_intcfg()
     if args[0] == 'rich':
         return run_rich(*args[1:])
     if args[0] == 'errest':
@@ -349,4 +423,8 @@ def replay_case(ob):
                     datakind=mm.group(4) if mm else 'real', model={k: v for k, v in mdl.items() if len(str(v)) < 40})
     if nm.startswith('columns/'):
         return dict(kind='C07.columns')
+    if nm.startswith('reconfigure/'):
+        return dict(kind='C07.reconf')
+    if nm.startswith('integer-config/'):
+        return dict(kind='C07.intcfg')
     return None
